@@ -235,6 +235,27 @@ theorem copy_len_generated (f : Nat) : copy_len f = f % 33554432 :=
 
 example : restore_distance_code 220 (8 * 1024 + 31) 0 0 = 1000 := by decide
 
+/-- `StoreVarLenUint8`: the generated list of `BrotliWriteBits` calls is the model's list of (nbits, value)
+fields, for every `u64` argument -/
+theorem store_var_len_uint8_generated (n : Nat) (h : n < 2 ^ 64) :
+    StoreVarLenUint8 n = (storeVarLenUint8 n).map (fun p => BV.Rs.WOp.bits p.1 p.2) := by
+  have h64 : (2:Nat) ^ 64 = 18446744073709551616 := by decide
+  unfold StoreVarLenUint8 storeVarLenUint8 log2Floor
+  by_cases h0 : n = 0
+  · subst h0; rfl
+  · have hl : Nat.log2 n < 64 := (Nat.log2_lt h0).2 h
+    have hle : 2 ^ Nat.log2 n ≤ n := Nat.log2_self_le h0
+    have e1 : Nat.log2 n % 256 = Nat.log2 n := by omega
+    have e2 : Nat.log2 n % 64 = Nat.log2 n := by omega
+    simp only [h0, beq_iff_eq, if_false, log2_floor_non_zero_generated n h0 h, e1, e2, Nat.shiftLeft_eq, Nat.one_mul,
+      List.nil_append, List.cons_append, List.map_cons, List.map_nil]
+    rw [h64] at h
+    generalize 2 ^ Nat.log2 n = X at hle ⊢
+    have e3 : (n + 18446744073709551616 - X % 18446744073709551616) % 18446744073709551616 = n - X := by omega
+    rw [e3]
+
+example : StoreVarLenUint8 200 = [BV.Rs.WOp.bits 1 1, BV.Rs.WOp.bits 3 7, BV.Rs.WOp.bits 7 72] := by decide
+
 example : GetInsertLengthCode 22593 = 22 := by decide
 example : GetCopyLengthCode 2117 = 22 := by decide
 
